@@ -14,7 +14,7 @@ import (
 
 // term renders the value as an expression over external calls, parameters and constants.
 func (c *Ctx) term(v ssa.Value, depth int) string {
-	if depth > 10 {
+	if depth > 24 {
 		return "..."
 	}
 	switch x := v.(type) {
